@@ -160,6 +160,8 @@ def build(case: dict):
 
     inputs: Dict[Tuple[int, Any, int], bytes] = {}
     mode = case['pix_mode']
+    repeat = rng.random() < 0.3
+    earlier: Dict[Tuple[int, int, int], bytes] = {}
     for key in sorted(vtf._frames, key=lambda k: (k[2], k[0], k[1] if isinstance(k[1], int) else k[1].value)):
         fr_i, dk, level = key
         if level > 0 and not case['explicit_mips']:
@@ -167,6 +169,9 @@ def build(case: dict):
         frame = vtf.get(frame=fr_i, mipmap=level, **({'side': dk} if case['cube'] else {'depth': dk}))
         w, h = frame.width, frame.height
         px = G.gen_pixels(rng, mode, w, h)
+        if repeat and (level, w, h) in earlier and rng.random() < 0.6:
+            px = earlier[level, w, h]  # byte-identical frames / faces / slices (a still animation, a uniform cubemap)
+        earlier[level, w, h] = px
         how = rng.randrange(4)
         if mode == 'fill':
             frame.fill(*px[:4])
